@@ -1376,6 +1376,12 @@ func (w *_unionAssembler) AssembleKey() datamodel.NodeAssembler {
 		cfg:        w.cfg,
 		schemaType: schemaTypeString,
 		val:        reflect.New(goTypeString).Elem(),
+		finish: func() error { // a second entry must not replace the member already assembled
+			if haveIdx, _ := unionMember(w.val); haveIdx >= 0 {
+				return schema.ErrNotUnionStructure{TypeName: w.schemaType.Name(), Detail: "a union must have exactly one entry"}
+			}
+			return nil
+		},
 	}
 	return &w.curKey
 }
